@@ -424,3 +424,22 @@ def t_table_c06(tier, chunk=0, nchunks=1):
         fi = get_repo().func("barril.units.posc:FillUnitDatabaseWithPosc")
         tr.functions.append({"function": fi.fq, "file": fi.module.path, "lines": list(fi.span()), "sha256": fi.sha256(), "level": "proof", "role": "coefficient literals of every row read from the real AST; %d compound rows and %d SI-prefixed rows decided in exact rational arithmetic" % (stats["decomposable"], stats["prefix"])})
     return tr
+
+
+@task("bounded_native")
+def t_bounded_native(tier, probe, props, bound, what):
+    """BOUNDED stand-in: exhaustive native enumeration inside a stated bound.  Reported under
+    'bounded' in the evidence and never counted among the proved obligations; a failing input found
+    here is a violation (the input itself is the replay)."""
+    from .report import run_probe
+
+    tr = TaskResult("bounded_native:" + probe)
+    res = run_probe(probe, {"tier": tier}, timeout=900)
+    entry = {"stand_in": "native enumeration by probe %s" % probe, "what": what, "bound": bound, "evaluations": res.get("evaluations"), "findings": 0, "props": list(props)}
+    if res.get("reproduced"):
+        entry["findings"] = 1
+        entry["violation"] = {"name": "bounded[%s]" % probe, "props": list(props), "status": "refuted", "kind": "bounded", "detail": "found_by=bounded: %s observed %r expected %r" % (res.get("call"), res.get("observed"), res.get("expected")), "replay": {"probe": probe, "hint": {}}, "ms": 0.0, "backend": "native", "model": None, "smt_size": 0}
+    elif res.get("error"):
+        tr.error = "bounded stand-in %s crashed: %s" % (probe, str(res.get("error"))[-400:])
+    tr.bounded.append(entry)
+    return tr
